@@ -711,6 +711,45 @@ impl<'a, Key, Value, MapFn, MappedValue> Iterator for MultiGetMapIterator<'a, Ke
 }
 
 
+/// Read-only observation accessors for the simulation harness (`--cfg cached_verif` only).
+#[cfg(cached_verif)]
+impl<Key, Value> CacheD<Key, Value>
+    where Key: Hash + Eq + Send + Sync + Clone + 'static,
+          Value: Send + Sync + 'static {
+    /// (key, key id, expiry, soft-deleted) of every physical store entry
+    pub fn verif_store(&self) -> Vec<(Key, u64, Option<std::time::SystemTime>, bool)> {
+        self.store.verif_snapshot()
+    }
+
+    /// (key id, key, key hash, charged weight) of every charged key id
+    pub fn verif_weights(&self) -> Vec<(u64, Key, u64, Weight)> {
+        self.admission_policy.verif_weights()
+    }
+
+    /// (shard, key id, expiry) of every entry of the expiry index
+    pub fn verif_expiry_index(&self) -> Vec<(usize, u64, std::time::SystemTime)> {
+        self.ttl_ticker.verif_snapshot()
+    }
+
+    /// key hashes still buffered in the access pool, per buffer
+    pub fn verif_buffered(&self) -> Vec<Vec<u64>> {
+        self.pool.verif_buffered()
+    }
+
+    pub fn verif_estimate(&self, key_hash: u64) -> u8 {
+        self.admission_policy.estimate(key_hash)
+    }
+
+    pub fn verif_door_keeper_has(&self, key_hash: u64) -> bool {
+        self.admission_policy.verif_door_keeper_has(key_hash)
+    }
+
+    pub fn verif_sketch(&self) -> crate::cache::verif::Sketch {
+        self.admission_policy.verif_sketch()
+    }
+}
+
+
 #[cfg(test)]
 mod tests {
     use std::sync::Arc;
